@@ -221,6 +221,12 @@ func genFeatures(t *rapid.T, d string) gm.Table {
 	if d != "sqlite" && rapid.Bool().Draw(t, "tcmt") {
 		tb.Comment = "features of keys and indexes"
 	}
+	if d == "postgres" && rapid.Bool().Draw(t, "identity") {
+		tb.Cols[0].Identity = true
+	}
+	if d == "mysql" && rapid.IntRange(0, 2).Draw(t, "autoinc") == 0 && len(tb.PK) > 0 && tb.PK[0].Col == "fid" {
+		tb.Cols[0].AutoInc = true
+	}
 	if d == "mysql" {
 		// the table inherits the schema's character set; a column may state its own
 		switch rapid.IntRange(0, 3).Draw(t, "colcs") {
@@ -271,6 +277,39 @@ func inherit(s *gm.Schema) {
 			}
 		}
 	}
+}
+
+// rawTypes lists SQL type spellings per dialect, with their parameter forms, written out by hand.
+func rawTypes() map[string][]string {
+	out := map[string][]string{}
+	for _, f := range []string{"", " year", " month", " day", " hour", " minute", " year to month", " day to hour", " day to minute", " hour to minute"} {
+		out["postgres"] = append(out["postgres"], "interval"+f)
+	}
+	for _, f := range []string{"", " second", " day to second", " hour to second", " minute to second"} {
+		out["postgres"] = append(out["postgres"], "interval"+f)
+		for p := 0; p <= 6; p++ {
+			out["postgres"] = append(out["postgres"], fmt.Sprintf("interval%s(%d)", f, p))
+		}
+	}
+	for p := 0; p <= 6; p++ {
+		for _, t := range []string{"timestamp(%d) with time zone", "timestamp(%d) without time zone", "time(%d) with time zone", "time(%d) without time zone", "timestamptz(%d)", "timetz(%d)"} {
+			out["postgres"] = append(out["postgres"], fmt.Sprintf(t, p))
+		}
+		for _, t := range []string{"datetime(%d)", "timestamp(%d)", "time(%d)"} {
+			out["mysql"] = append(out["mysql"], fmt.Sprintf(t, p))
+		}
+	}
+	out["postgres"] = append(out["postgres"], "numeric", "numeric(10)", "numeric(10,2)", "numeric(10,0)", "decimal(5,5)", "character varying", "character varying(1)", "varchar(10)", "character(3)", "char", "bit", "bit(3)", "bit varying", "bit varying(5)",
+		"float4", "float8", "real", "double precision", "float(10)", "float(40)", "smallint", "integer", "bigint", "int2", "int4", "int8", "serial", "bigserial", "smallserial", "boolean", "bytea", "date", "json", "jsonb", "uuid", "xml", "money",
+		"inet", "cidr", "macaddr", "macaddr8", "point", "line", "lseg", "box", "path", "polygon", "circle", "tsvector", "tsquery", "int4range", "int8range", "numrange", "tsrange", "tstzrange", "daterange", "oid", "regclass",
+		"integer[]", "text[]", "character varying(10)[]", "numeric(10,2)[]", "timestamp(3) with time zone[]")
+	out["mysql"] = append(out["mysql"], "tinyint", "tinyint(1)", "tinyint unsigned", "smallint", "smallint unsigned", "mediumint", "int", "int unsigned", "int(11)", "bigint", "bigint unsigned", "bigint(20) unsigned zerofill",
+		"decimal", "decimal(10)", "decimal(10,2)", "decimal(10,2) unsigned", "numeric(8,3)", "float", "float unsigned", "float(10,2)", "double", "double(10,2)", "double unsigned", "real", "bit", "bit(8)", "bool", "boolean",
+		"char", "char(10)", "varchar(1)", "varchar(255)", "binary", "binary(4)", "varbinary(16)", "tinytext", "text", "mediumtext", "longtext", "tinyblob", "blob", "mediumblob", "longblob",
+		"date", "year", "year(4)", "datetime", "timestamp", "time", "json", "enum('a','b')", "enum('it''s','x,y')", "set('a','b')", "geometry", "point", "linestring", "polygon", "multipoint", "geometrycollection")
+	out["sqlite"] = append(out["sqlite"], "integer", "int", "tinyint", "smallint", "mediumint", "bigint", "unsigned big int", "int2", "int8", "real", "double", "double precision", "float", "text", "clob", "character(20)", "varchar(255)",
+		"varying character(255)", "nchar(55)", "native character(70)", "nvarchar(100)", "blob", "numeric", "numeric(10,2)", "decimal(10,5)", "boolean", "date", "datetime", "json", "uuid", "MONEY", "Point2D", "VARCHAR2(10)")
+	return out
 }
 
 func genSchema(types map[string][]string) func(t *rapid.T) SCase {
@@ -349,6 +388,21 @@ func TestCheck(t *testing.T) {
 			ok := ev.Each(col, "inspected-spellings", c, func(c ICase) error {
 				col.Class("postgres/inspected-time-spelling")
 				col.NonTrivial(fmt.Sprintf("inspected|%s|%d", c.T, c.Prec))
+				return checkInspected(c)
+			}, ev.Matcher[ICase]{})
+			if !ok {
+				return
+			}
+		}
+	}
+	// raw SQL types written by hand (not derived from the registered specs): every spelling x parameter form
+	raws := rawTypes()
+	for _, d := range []string{"mysql", "postgres", "sqlite"} {
+		for _, raw := range raws[d] {
+			c := ICase{Dialect: d, Raw: raw}
+			ok := ev.Each(col, "inspected-spellings", c, func(c ICase) error {
+				col.Class(c.Dialect + "/raw-type")
+				col.NonTrivial(fmt.Sprintf("raw|%s|%s", c.Dialect, c.Raw))
 				return checkInspected(c)
 			}, ev.Matcher[ICase]{})
 			if !ok {
